@@ -135,7 +135,8 @@ def _for_loop(self, d, ind, k=None, inner=False):
     p = self.p
     k = k or self.fresh()
     i2 = ind + "    "
-    it = ["r(%d)", "g(%d)", "s(%d)"][p.choose(3, "iterable")] % k
+    itk = p.choose(4 if self.clauses else 3, "iterable")
+    it = ["r(%d)", "g(%d)", "s(%d)", "%d, 7"][itk] % k          # the last: a tuple written without parentheses
     # nothing / loop.index / loop.index only inside a tag attribute / loop.parent.index as well
     use = ["none", "index", "attr", "parent"][p.choose(4 if self.fors else 3, "uses_loop")]
     parent = self.fors[-1] if self.fors else None
@@ -156,8 +157,13 @@ def _for_loop(self, d, ind, k=None, inner=False):
     elif self.loop_mode == "disabled" and use != "none":
         # with enable_loop=False `loop` is whatever the context holds under that name
         extra, pyx = "${loop}\n", [i2 + "out.append('ordinary-loop')"]
-    tmpl = self.ctl("for i%d in %s:" % (k, it)) + extra + t1
-    py = [ind + "for n%d, i%d in enumerate(%s):" % (k, k, it)] + pyx + p1
+    target = "i%d" % k
+    if itk == 2 and not inner and self.clauses and p.choose(2, "starred_target"):
+        target = "i%d, *rest%d" % (k, k)                         # for i, *rest in "ab": legal Python
+    tmpl = self.ctl("for %s in %s:" % (target, it)) + extra + t1
+    py = [ind + "for n%d, (%s) in enumerate(%s):" % (k, target if "," in target else target + ",", "(%s)" % it if itk == 3 else it)] + pyx + p1
+    if "," not in target:
+        py[0] = ind + "for n%d, i%d in enumerate(%s):" % (k, k, "(%s)" % it if itk == 3 else it)
     if not self.simple and self.clauses and not inner and p.choose(2, "for_else"):
         # the else clause runs after exhaustion (nothing in the grammar breaks out); `loop` there is the enclosing loop's again
         tmpl += self.ctl("else:") + "fe%d\n" % k
